@@ -1221,6 +1221,11 @@ WITNESSES = [   # the four known findings (known_findings.json): replayed on eve
     ('elt', ('ife', ('or', ('not', ('a', 'a')), ('a', 'b')), ('a', 'c'), ('a', 'd'))),
     ('elt', ('ife', ('and', ('not', ('a', 'a')), ('a', 'b')), ('a', 'c'), ('a', 'd'))),
     ('elt', ('ife', ('not', ('or', ('a', 'a'), ('a', 'b'))), ('a', 'c'), ('a', 'd'))),
+    ('elt', ('ife', ('not', ('and', ('a', 'a'), ('not', ('a', 'b')))), ('a', 'c'), ('a', 'd'))),
+    ('elt', ('ife', ('not', ('ife', ('a', 'a'), ('a', 'b'), ('a', 'c'))), ('a', 'd'), ('a', 'e'))),
+    ('elt', ('ife', ('ife', ('a', 'a'), ('a', 'b'), ('not', ('a', 'c'))), ('a', 'd'), ('a', 'e'))),
+    # if-expression in the test of an if-expression, behind another clause (repaired by fixes/C03-stale-jump-target.diff)
+    ('cond', ('and', ('a', 'a'), ('ife', ('ife', ('a', 'b'), ('a', 'c'), ('a', 'd')), ('a', 'e'), ('a', 'g')))),
     # constant operand folded away by CPython 3.12 (a test whose two branches continue at the same place)
     ('cond', ('or', ('a', 'a'), ('lit', '1'))),
     ('cond', ('not', ('and', ('a', 'a'), ('lit', '0')))),
@@ -1410,6 +1415,22 @@ def run(ctx):
                     combos += [('or', z, N), ('and', z, N), ('not', N), ('or3', N, z, w), ('or3', z, N, w), ('or3', z, w, N),
                                ('and3', N, z, w), ('and3', z, N, w), ('and3', z, w, N), ('ife', N, z, w), ('or', ('not', N), z)]
                     for c in combos: programs.append(prog_of('cond', c)); n_none += 1
+        # directed family: an if-expression with a compound control-flow expression (in particular another if-expression) as its test,
+        # body or else-branch, with another clause before / after it on the decompiler's stack (and/or operand, a second `if`, a
+        # filter next to a yielded if-expression)
+        ife_k = ctx.scale(4, 5)
+        shapes.__defaults__[0].clear()
+        n_ife = 0
+        g, h, t = ('a', 'g'), ('a', 'h'), ('a', 't')
+        def one_clause(elt, conds): return {'elt': elt, 'clauses': [{'target': 'x', 'iter': None, 'conds': conds}]}
+        for n in range(2, ife_k + 1):
+            for e in enumerate_exprs(n, 3):
+                for E in (('ife', e, g, h), ('ife', t, e, h), ('ife', t, g, e)):
+                    for c in (('and', z, E), ('or', z, E), ('and', E, z), ('or', E, z), ('not', E)):
+                        programs.append(prog_of('cond', c)); n_ife += 1
+                    programs.append(one_clause(('a', 'x'), [z, E])); programs.append(one_clause(('a', 'x'), [E, z]))
+                    programs.append(one_clause(E, [z])); programs.append(one_clause(('and', z, E), [])); programs.append(prog_of('lam', ('and', z, E)))
+                    n_ife += 5
         # constant operands (True / None / ints) of not, and/or, if-else, ==, f(.): CPython folds them away and leaves degenerate jumps
         lit_k = ctx.scale(4, 5)
         shapes.__defaults__[0].clear()
@@ -1425,7 +1446,7 @@ def run(ctx):
     n_enum = len(programs)
     for _ in range(ctx.scale(200, 6000)):
         programs.append(rand_program(ctx.rng))
-    ctx.extra['enumerated'] = {'full_grammar_up_to_size': full_k, 'control_flow_grammar_up_to_size': cf_k, 'none_test_family_over_control_flow_up_to_size': none_k, 'programs_in_none_test_family': n_none, 'constant_operand_grammar_up_to_size': lit_k, 'programs_with_constant_operands': n_lit, 'programs_enumerated': n_enum, 'random_programs': len(programs) - n_enum}
+    ctx.extra['enumerated'] = {'full_grammar_up_to_size': full_k, 'control_flow_grammar_up_to_size': cf_k, 'none_test_family_over_control_flow_up_to_size': none_k, 'programs_in_none_test_family': n_none, 'ifexp_family_over_control_flow_up_to_size': ife_k, 'programs_in_ifexp_family': n_ife, 'constant_operand_grammar_up_to_size': lit_k, 'programs_with_constant_operands': n_lit, 'programs_enumerated': n_enum, 'random_programs': len(programs) - n_enum}
     size = 4000 if interpreted else max(100, len(programs) // 96)
     work = [(cmd, LEAN, c) for c in chunks(programs, size)]
     procs = 4 if interpreted else 16
